@@ -420,6 +420,9 @@ func raise(x *X, t *rapid.T, k int, site int, msg string) {
 	case fkPanicStr:
 		panic(msg)
 	case fkPanicErr:
+		if len(x.inv.Draws)%2 == 1 {
+			panic(fmt.Errorf("%w", errors.New(msg))) // same text, a fresh chain of allocations in every execution
+		}
 		panic(errors.New(msg))
 	case fkPanicStruct:
 		panic(boomStruct{7, msg})
